@@ -142,8 +142,8 @@ class NumChecker:
             self._fail(name, 'result is %s, expected %s' % (type(obj).__name__, getattr(cls, '__name__', cls)))
 
     def eq(self, name, a, b, tol=1e-9, scale=None):
-        sa, va = flatten(a)
-        sb, vb = flatten(b)
+        sa, va = flatten(a, numeric=True)
+        sb, vb = flatten(b, numeric=True)
         if sa != sb or len(va) != len(vb):
             self._fail(name, 'structure differs: %s vs %s' % (sig_str(sa), sig_str(sb)))
             return
@@ -170,7 +170,7 @@ class NumChecker:
             self._fail(name, 'element %d: %r vs %r (error %.3g > %.3g)' % (worst[0], worst[1], worst[2], worst[3], bound))
 
     def zero(self, name, a, tol=1e-9, scale=None):
-        sa, va = flatten(a)
+        sa, va = flatten(a, numeric=True)
         self.eq(name, va, [0.0] * len(va), tol, scale)
 
     def le(self, name, a, b):
